@@ -153,7 +153,6 @@ Definition upd (s : bstate) (c p b k : N) (f : bool) (hi lo : N) : bstate :=
 Definition bstep (s : bstate) (o : op) (a : banswer) : option bstate :=
   match o with
   | Sent bytes app =>
-      let now := match app with _ => 0 end in
       if u32_max <? bbif s + bytes then None else
       Some {| bmds := bmds s; bcwnd := bcwnd s; bprior := bprior s; bbif := bbif s + bytes;
               bkind := bkind s; bfilled := bfilled s; bhi := bhi s; blo := blo s;
@@ -178,7 +177,10 @@ Definition bstep (s : bstate) (o : op) (a : banswer) : option bstate :=
                     else N.max (bbr_min_window (bmds s)) (N.min (a_cwnd a) (N.min (restored + bytes) bound)) in
           Some {| bmds := bmds s; bcwnd := c'; bprior := p'; bbif := bbif s - bytes;
                   bkind := k'; bfilled := f'; bhi := a_hi a; blo := a_lo a;
-                  bdeliv := d'; blost := blost s; bapp := app'; brec := rec'; bq := q'; blast := blast s |}
+                  bdeliv := d'; blost := blost s;
+                  (* handle_probe_rtt marks the connection application limited *)
+                  bapp := if (bkind s =? 6) || (k' =? 6) then Some (d' + (bbif s - bytes)) else app';
+                  brec := rec'; bq := q'; blast := blast s |}
       end
   | Lost bytes _ now =>
       if (bytes =? 0) || (bbif s <? bytes) then None else
@@ -207,7 +209,7 @@ Definition bstep (s : bstate) (o : op) (a : banswer) : option bstate :=
               bkind := bkind s; bfilled := bfilled s; bhi := bhi s; blo := blo s;
               bdeliv := bdeliv s; blost := blost s;
               bapp := match bapp s with Some x => Some (x - bytes) | None => None end;
-              brec := clear_req_b (brec s); bq := bq s; blast := blast s |}
+              brec := clear_req_b (brec s); bq := q'; blast := blast s |}
   | Nop => Some s
   end.
 
